@@ -423,3 +423,22 @@ where
         Ok(())
     }
 }
+
+/// Verification hooks: drive the disseminator-shred handler once and look at the blockstore it feeds.
+#[cfg(feature = "verif-hooks")]
+impl<A, D, T> Alpenglow<A, D, T>
+where
+    A: All2All + Send + Sync + 'static,
+    D: Disseminator + Send + Sync + 'static,
+    T: TransactionNetwork + 'static,
+{
+    /// Calls the private handler of a shred received from the disseminator exactly once.
+    pub async fn verif_handle_disseminator_shred(&self, shred: Shred) -> std::io::Result<()> {
+        self.handle_disseminator_shred(shred).await
+    }
+
+    /// The node's blockstore handle.
+    pub fn verif_blockstore(&self) -> SharedBlockstore {
+        self.blockstore.clone()
+    }
+}
